@@ -71,14 +71,14 @@ def classify(ctx, prog, I, sites, prop, label, extra_ok=None):
                 ctx.count('invariant_table_sites')
                 continue
             ctx.ob('[%s] %s in %s discharged' % (label, desc, fn), False, sample=True)
-            ctx.finding('PANIC-SITE', fn, _inst(kind, I, key), '%s can fail: %s' % (desc, bad.get(key) or 'reachable under %d path conditions' % len(pan.get(key, ()))), at=at)
+            ctx.finding('PANIC-SITE', fn, _inst(kind, I, key, prog), '%s can fail: %s' % (desc, bad.get(key) or 'reachable under %d path conditions' % len(pan.get(key, ()))), at=at)
         elif key in visited_ok:
             n_dis += 1
             ctx.ob('[%s] %s in %s (%s) discharged' % (label, desc, fn, at.split('/')[-1]), True, sample=(n_dis % 9 == 1))
         elif key in I.exec_sites:
             # the call was executed abstractly but no summary vouched for its panic condition
             ctx.ob('[%s] %s in %s discharged' % (label, desc, fn), False, sample=True)
-            ctx.finding('PANIC-SITE', fn, _inst(kind, I, key), '%s is reached and nothing discharges its panic condition' % desc, at=at)
+            ctx.finding('PANIC-SITE', fn, _inst(kind, I, key, prog), '%s is reached and nothing discharges its panic condition' % desc, at=at)
         else:
             n_unreached += 1
             ctx.ob('[%s] %s in %s unreachable in every analysed mode' % (label, desc, fn), True, nontrivial=False)
@@ -89,9 +89,30 @@ def classify(ctx, prog, I, sites, prop, label, extra_ok=None):
     return n_dis, n_unreached, n_inv
 
 
-def _inst(kind, I, key):
+def overflow_type(prog, fn, at):
+    """operator and operand type of the overflow assert at `at` in `fn` (e.g. 'Add usize')"""
+    f = prog.fns.get(fn)
+    if not f:
+        return '?'
+    out = set()
+    for b in f['blocks']:
+        t = b['term']
+        if t['k'] == 'assert' and t['msg'] == 'Overflow' and t['at'] == at and t.get('ops'):
+            o = t['ops'].get('a')
+            ty = '?'
+            if o and o['k'] in ('copy', 'move') and not o['pl']['p']:
+                ty = f['locals'][o['pl']['l']]
+            elif o and o['k'] == 'int':
+                ty = o['ty']
+            out.add('%s:%s' % (t['ops'].get('op', '?'), ty))
+    return '/'.join(sorted(out)) or '?'
+
+
+def _inst(kind, I, key, prog=None):
     if kind == 'Overflow':
-        return 'Overflow(Add)' if key[0].endswith(('GameState::pass', 'GameState::move_piece')) else 'Overflow'
+        if key[0].endswith(('GameState::pass', 'GameState::move_piece')) and prog is not None:
+            return 'Overflow(%s)' % overflow_type(prog, key[0], key[1])
+        return 'Overflow'
     return kind
 
 
